@@ -223,7 +223,7 @@ class NetworkGraph(AbstractBaseIR):
                 if not scalar_edges:
                     continue
 
-                delays, spreads, nodes, add_delay = self._collect_delays_from_edges(scalar_edges)
+                delays, spreads, nodes, add_delay = self._collect_delays_from_edges(scalar_edges, dde_approx=dde_approx)
 
                 # add synaptic buffer to output variables with delay
                 if add_delay:
@@ -314,28 +314,45 @@ class NetworkGraph(AbstractBaseIR):
 
         return edges_new
 
-    def _collect_delays_from_edges(self, edges):
+    @staticmethod
+    def _has_spread(v) -> bool:
+        if v is None:
+            return False
+        if type(v) is list:
+            return any(v_tmp is not None and np.sum(v_tmp) != 0 for v_tmp in v)
+        return np.sum(v) != 0
+
+    def _collect_delays_from_edges(self, edges, dde_approx: int = 0):
+
+        # the edges of this source variable are realized as ODE chains (gamma kernels) if one of them has a spread or if
+        # `dde_approx` is set: all delays then stay in time units (the chain rate is order/delay) and an undelayed edge
+        # is marked by a delay of 0, which `_add_edge_buffer` passes through without a chain
+        use_chain = dde_approx > 0 or any(self._has_spread(self.edges[s, t, e].get('spread')) for s, t, e in edges)
+        no_delay = 0 if use_chain else 1
+
         means, stds, nodes = [], [], []
         for s, t, e in edges:
 
             # extract delay
             d = self.edges[s, t, e]['delay']
             if type(d) is list:
-                d = [1 if d_tmp is None else d_tmp for d_tmp in d]
+                d = [no_delay if d_tmp is None else d_tmp for d_tmp in d]
 
             # extract and process delay distribution spread
             v = self.edges[s, t, e].pop('spread', [0])
+            if type(v) is list:
+                v = [0 if v_tmp is None else v_tmp for v_tmp in v]
             n_slots = max(len(self.edges[s, t, e]['target_idx']), 1)
             if v is None or np.sum(v) == 0:
                 v = [0] * n_slots
-                discretize = True
+                discretize = not use_chain
             else:
                 discretize = False
                 v = self._process_delays(v, discretize=discretize)
 
             # finalize edge delay
             if d is None or np.sum(d) == 0:
-                d = [1] * n_slots
+                d = [no_delay] * n_slots
             else:
                 d = self._process_delays(d, discretize=discretize)
 
